@@ -15,10 +15,11 @@ def init(known: list[str]):
     _STATE.update(E=E, b=b, qs={q.name: q for q in qs}, skipped=skipped)
 
 
-def solve_named(name: str, t_bv: float, t_int: float) -> dict:
+def solve_named(name: str, t_bv: float, t_int: float, seed: int = 0) -> dict:
     E = _STATE["E"]
     q = _STATE["qs"][name]
-    r = E.solve(q, t_bv)
+    r = E.solve(q, t_bv, seed)
+    r["seed"] = seed
     r["desc"] = q.desc
     r["region"] = q.region
     r["excluded"] = q.excluded
@@ -32,6 +33,13 @@ def solve_named(name: str, t_bv: float, t_int: float) -> dict:
             r["model"] = r2["model"]
     if r["result"] == "sat":
         r["replay"] = E.replay(_STATE["b"], q, r["model"])
+        if q.members:
+            # one formula, several operators: every one of them must disagree with CPython on the model
+            reps = {m.dunder: E.replay(_STATE["b"], m, r["model"]) for m in q.members}
+            r["member_replays"] = reps
+            r["replay"] = {"reproduced": all(x["reproduced"] for x in reps.values()),
+                           "guppy": {k: v["guppy"] for k, v in reps.items()}, "python": {k: v["python"] for k, v in reps.items()},
+                           "binding": "; ".join(v.get("binding", "") for v in reps.values())}
     return r
 
 
@@ -43,6 +51,14 @@ def replay_main(name: str, vals: list, known: list[str]) -> int:
     if q is None:
         print(f"no query {name}")
         return 3
+    if q.members:
+        rc = 0
+        for m in q.members:
+            r = E.replay(_STATE["b"], m, vals)
+            print(f"float.{m.dunder}{tuple(vals)}: Guppy ({r.get('binding')}) gives {r['guppy']}, Python gives {r['python']}")
+            rc |= 1 if r["reproduced"] else 0
+        print("REPRODUCED" if rc else "not reproduced")
+        return rc
     r = E.replay(_STATE["b"], q, vals)
     print(f"{name}{tuple(vals)}: Guppy ({r.get('binding')}) gives {r['guppy']}, Python gives {r['python']}")
     if r["reproduced"]:
